@@ -831,6 +831,25 @@ func (m *machine) userCleans() {
 	if t.Bool(1, 4) {
 		os.WriteFile(filepath.Join(m.tele, "stray.json"), []byte("keep"), 0666)
 	}
+	// data-named entries that are symbolic links to files of the user's own
+	// (latest.json -> the newest report's copy elsewhere, a link someone made to
+	// look at a file): clean may take the link away, never what it leads to
+	var links []string
+	if t.Bool(1, 5) {
+		os.WriteFile(filepath.Join(m.tele, "kept-elsewhere.txt"), []byte("keep"), 0666)
+		for _, l := range [][2]string{{filepath.Join(m.loc, "latest.json"), filepath.Join("..", "mode")}, {filepath.Join(m.loc, "mine.v1.count"), filepath.Join("..", "kept-elsewhere.txt")},
+			{filepath.Join(m.upl, "latest.json"), filepath.Join("..", "local", "weekends")}, {filepath.Join(m.upl, "gone.json"), filepath.Join("..", "no-such-file")}} {
+			if t.Bool(1, 2) && os.Symlink(l[1], l[0]) == nil {
+				links = append(links, l[0])
+				m.s.Probe("data-named-link-to-a-file")
+			}
+		}
+	}
+	defer func() {
+		for _, l := range links {
+			os.Remove(l) // (should an implementation keep them: the later rounds are not about them)
+		}
+	}()
 	before := dirState(m.tele)
 	m.soloTask("user:clean", func() { runClean(nil) })
 	// The machine has forgotten which weeks were reported: what happens to a
